@@ -246,3 +246,29 @@ def is_zero(t):
     if const_int(t) == 0:
         return True
     return t[0] == 'call' and re.search(r'core::<[iu](8|16|32|64|128|size) as core::default::Default>::default$', t[1]) is not None
+
+
+def storage_classes(P, rep, rule, crate, expected):
+    """type-table rule: every write of, and every presence test on, the given storage-key variants uses the expected
+    storage class (instance / persistent / temporary).  Durability is part of the behaviour: a status, registry entry or
+    clock kept in temporary storage expires and silently resets."""
+    n = 0
+    for cn, en in P.all_entries():
+        if cn != crate:
+            continue
+        g = P.graph(cn, en)
+        for e in effects(g):
+            if e.kind in ('sw', 'sr', 'supd'):
+                v = key_variant(e.key)[0]
+                if v in expected:
+                    n += 1
+                    rep.check(e.cls == expected[v], rule, '%s::%s:%s-class' % (cn, en, v), '%s is kept in %s storage' % (v, expected[v]), esite(g, e), e.cls)
+        for gd in guard_edges(g):
+            c = gd.cond
+            if c[0] in ('present', 'absent') and isinstance(c[1], tuple) and c[1][0] == 'skey':
+                v = key_variant(c[1][2])[0]
+                if v in expected:
+                    n += 1
+                    rep.check(c[1][1] == expected[v], rule, '%s::%s:%s-read-class' % (cn, en, v), '%s is looked up in %s storage' % (v, expected[v]),
+                              site(g, gd.ctx, gd.bb), c[1][1])
+    return n
